@@ -498,6 +498,28 @@ func (g *qgen) mods() string {
 	return s
 }
 
+func (g *qgen) atMod() string {
+	at := g.c.t0 + g.r.Range(0, g.c.t1-g.c.t0+g.c.iv)
+	return fmt.Sprintf(" @ %d.%03d", at/1000, at%1000)
+}
+
+// a scalar expression whose value changes from step to step
+func (g *qgen) varyingParam(quantile bool) string {
+	var p string
+	switch {
+	case g.shift || g.r.Chance(1, 3):
+		p = "scalar(count(" + g.selector(false) + g.mods() + ") or vector(0))"
+	case g.r.Bool():
+		p = "(time() % 3)"
+	default:
+		p = "scalar(sum(count_over_time(m{s=\"a\"}[" + dur(g.someRange()) + "])) or vector(0))"
+	}
+	if quantile {
+		return "(" + p + " / 4)"
+	}
+	return "(" + p + " + 1)"
+}
+
 func (g *qgen) selector(hist bool) string {
 	name := "m"
 	if hist {
@@ -594,11 +616,27 @@ func (g *qgen) iv(depth int, hist bool) (s string, ordered bool) {
 			op = gen.Pick(r, []string{"count", "group"})
 		}
 		by := gen.Pick(r, []string{"", " by (g)", " by (s)", " without (s)", " by (g, s)"})
+		// aggregation parameters are expressions of their own: let them vary with the
+		// evaluation time, also over @-fixed operands (PreprocessExpr must not treat the
+		// aggregation as step invariant then)
+		param := ""
+		if (op == "quantile" || op == "topk" || op == "bottomk") && r.Chance(1, 3) {
+			param = g.varyingParam(op == "quantile")
+			if !g.shift && r.Bool() {
+				a = g.selector(false) + g.atMod()
+			}
+		}
 		switch op {
 		case "quantile":
-			return fmt.Sprintf("quantile%s (0.5, %s)", by, a), ord
+			if param == "" {
+				param = "0.5"
+			}
+			return fmt.Sprintf("quantile%s (%s, %s)", by, param, a), ord
 		case "topk", "bottomk":
-			return fmt.Sprintf("%s%s (%d, %s)", op, by, r.Range(1, 2), a), false
+			if param == "" {
+				param = fmt.Sprint(r.Range(1, 2))
+			}
+			return fmt.Sprintf("%s%s (%s, %s)", op, by, param, a), false
 		case "count_values":
 			return fmt.Sprintf("count_values%s (\"v\", %s)", by, a), false
 		}
@@ -880,7 +918,7 @@ func same(a, b []osmp) bool {
 func main() {
 	f := gallina.ParseFlags()
 	meta := gallina.NewMeta("C27", f.Seed, f.Tier)
-	meta.Rule = "corpus + seeded cases: 1-3 float series m/p (0..21 samples; regular with missed scrapes / jittered / irregular spacing, gaps around and beyond the lookback delta, staleness markers, counter/gauge/constant/inexact/NaN/Inf/-0 values) and 0-2 native-histogram series; a (start, step, 1..16 steps) grid with steps smaller and larger than sample spacing and ranges; 6-8 probe queries and 4 generated queries (3 range-vs-instant, 1 offset shift) per case; non-trivial = a generic query whose range result has a sample at >= 2 steps; distinct by query text and data"
+	meta.Rule = "corpus + seeded cases: 1-3 float series m/p (0..21 samples; regular with missed scrapes / jittered / irregular spacing, gaps around and beyond the lookback delta, staleness markers, counter/gauge/constant/inexact/NaN/Inf/-0 values) and 0-2 native-histogram series; a (start, step, 1..16 steps) grid with steps smaller and larger than sample spacing and ranges; 8 probe queries and 5 generated queries (3 random + 1 regression template range-vs-instant, 1 offset shift) per case; non-trivial = a generic query whose range result has a sample at >= 2 steps; distinct by query text and data"
 	cf := &gallina.CaseFile{Dir: f.Out, Type: "case", PerShard: perShard(f.Tier),
 		Preamble: "From Coq Require Import List ZArith Uint63.\nFrom Verif Require Import model.PromqlRange corr.CorrC27.\nImport ListNotations.\nOpen Scope uint63_scope.\n",
 		Footer:   gallina.StdFooter}
@@ -990,15 +1028,18 @@ func main() {
 		km := keymap{}
 		var gterms []string
 		nontrivial := false
-		for gi := 0; gi < 4; gi++ {
+		for gi := 0; gi < 5; gi++ {
 			hist := len(c.hser) > 0 && r.Chance(1, 4)
 			depth := 1 + r.Intn(3)
-			if gi < 3 {
+			if gi < 4 {
 				g := &qgen{r: r, c: &c}
 				var expr string
-				if r.Chance(1, 8) {
+				switch {
+				case gi == 3:
+					expr = regression(g, id)
+				case r.Chance(1, 8):
 					expr = g.sc(depth)
-				} else {
+				default:
 					expr, _ = g.iv(depth, hist)
 				}
 				gd := gdesc{Kind: "range-vs-instant", Expr: expr}
@@ -1119,7 +1160,7 @@ func main() {
 	for i, c := range corpus() {
 		emit(c, gen.Fork(f.Seed^0x5eed, i), -1-i)
 	}
-	n := f.Count(400, 6000)
+	n := f.Count(300, 6000)
 	for i := 0; i < n; i++ {
 		r := gen.Fork(f.Seed, i)
 		emit(genCase(r), r, i)
@@ -1133,7 +1174,28 @@ func perShard(tier string) int {
 	if tier == "thorough" {
 		return 300
 	}
-	return 140
+	return 160
+}
+
+// regression queries for engine defects fixed in /repo ("fix: promql: ..." commits): aggregation
+// parameters varying with time over @-fixed operands, timestamp() over an @ selector with an
+// offset, inner @ selectors of a subquery with a negative offset
+func regression(g *qgen, id int) string {
+	at := g.atMod()
+	switch id % 6 {
+	case 0:
+		return "topk(scalar(count(m) or vector(0)) + 1, m" + at + ")"
+	case 1:
+		return "quantile((time() % 10) / 10, m" + at + ")"
+	case 2:
+		return "timestamp(m offset " + dur(g.someOffset()) + at + ")"
+	case 3:
+		return "sum_over_time((p" + at + ")[" + dur(g.someRange()) + ":" + dur(g.c.iv) + "] offset " + dur(-g.r.Range(1, 2*g.c.iv)) + ")"
+	case 4:
+		return "bottomk((time() % 3) + 1, m" + at + ")"
+	default:
+		return "topk by (g) (scalar(sum(count_over_time(m{s=\"a\"}[" + dur(g.someRange()) + "])) or vector(0)), m offset " + dur(g.c.iv) + at + ")"
+	}
 }
 
 func appendNote(notes []string, s string) []string {
